@@ -117,6 +117,15 @@ func (r *c14) note(d *mdiff.Diff, mode string) {
 			break
 		}
 	}
+	for _, c := range d.Chunks {
+		if c.LEnd >= 1000 || c.REnd >= 1000 {
+			r.st.Note("line-numbers>=1000")
+			break
+		}
+	}
+	lbNote(r.st, "format-left-lines", len(r.left))
+	lbNote(r.st, "format-chunks", len(d.Chunks))
+	lbNote(r.st, "format-longest-line-bytes", c13longest(r.left, r.right))
 	for _, l := range append(slices.Clone(r.left), r.right...) {
 		if l == "" {
 			r.st.Note("empty-line")
@@ -314,6 +323,14 @@ func c14gen(kind string) func(g *G) {
 			}
 			g.Case(ops)
 		})
+		for _, b := range c13bigCases(g) {
+			if !g.Thorough() && (len(b.left) > 1500 || len(b.left) >= 1000 && !strings.HasPrefix(b.left[0], "L")) {
+				// the quick tier formats files of up to 1058 unique lines (four-digit line numbers included); the
+				// 1000-line files over two or three different lines stress New (C13), not the formats
+				continue
+			}
+			g.Each(c14bigOps(g, b, kind))
+		}
 	}
 }
 
